@@ -190,11 +190,22 @@ func TestFoldAllCased(t *testing.T) {
 	vp.Exhaustive("every cased rune below U+20000 x every same-width member of its fold orbit, as first rune of a needle matched off offset 0", true)
 }
 
+// confusables: runes related by unicode.ToLower / ToUpper but NOT by simple
+// folding (U+0130 lower-cases to i, U+0131 upper-cases to I), next to pairs of
+// fold partners of different UTF-8 widths (s/U+017F, k/U+212A, å/U+212B,
+// ß/U+1E9E) that can compensate the width difference inside a window.
+var confusables = []rune("iIİısſkKåÅßẞ")
+
 func TestFoldEnumerate(t *testing.T) {
 	maxHay := 4
 	if vp.Thorough() {
 		maxHay = 5
 	}
+	enumFold(t, enumAlphabet, maxHay, "a 12-rune alphabet with 3-member fold orbits")
+	enumFold(t, confusables, maxHay-1, "the 12 ToLower/ToUpper-confusable and width-changing runes")
+}
+
+func enumFold(t *testing.T, enumAlphabet []rune, maxHay int, what string) {
 	shard, shards := vp.Shard()
 	var needles []string
 	needles = append(needles, "")
@@ -243,7 +254,7 @@ func TestFoldEnumerate(t *testing.T) {
 	vp.NonTrivialN("c13.fold-enum", positives)
 	vp.ClassN("fold-enum:pairs", count)
 	vp.ClassN("fold-enum:true-via-non-identical-window", positives)
-	vp.Exhaustive(fmt.Sprintf("all haystacks of <= %d runes x all needles of <= 2 runes over a 12-rune alphabet with 3-member fold orbits", maxHay), !failed)
+	vp.Exhaustive(fmt.Sprintf("all haystacks of <= %d runes x all needles of <= 2 runes over %s", maxHay, what), !failed)
 }
 
 // SplitCase is the input of SplitTrimmed.
